@@ -7,8 +7,8 @@ from sqlparse import lexer, tokens as T
 RULE = ('inputs: corpus, g2/g3 mixed junk, grammar scripts with random layout; every returned piece is re-fed to split(); '
         'non-trivial = distinct input with at least two pieces')
 ASSUMPTIONS = ['splitter model tied by S-SPLIT (sampled) and S-CSL (exhaustive)', 'lexer model tied by S-LEX/S-RE (C01)']
-PARTIAL = ['split() == stripped str() of parse() statements: by construction of FilterStack.run + grouping text preservation (C02); sampled here',
-           'pieces non-empty after strip(): theorem pieces_nonempty',
+ALSO_THEOREMS = [('SqlProps.C02', ['Sql.C02.split_is_stripped_parse', 'Sql.C02.parse_fails_only_where_split_fails_or_depth'])]
+PARTIAL = ['split() == stripped str() of parse() statements is a theorem over the model (C02.split_is_stripped_parse; needs the grouping model, tied by S-TREE in C02) and compared on the real code here',
            're-split clause: sampled on lex-stable pieces; context-sensitive lexemes are known findings KF-C04-1/2']
 
 
